@@ -654,7 +654,9 @@ func UnpackRRWithHeader(h RR_Header, msg []byte, off int) (rr RR, off1 int, err 
 		return rr, off, nil
 	}
 
-	off, err = rr.unpack(msg, off)
+	// The RDATA ends where the header says, whatever follows it in msg
+	// (unpackHeader truncates msg in the same way for UnpackRR).
+	off, err = rr.unpack(msg[:end], off)
 	if err != nil {
 		return nil, end, err
 	}
